@@ -95,6 +95,8 @@ def gen_cases(tier, seed):
                 t = ("op", ops[int(rng.integers(5))], t, d1[int(rng.integers(len(d1)))])
             trees.append(t)
         cases.append({"kind": "parameter", "trees": trees, "seed": int(rng.integers(1 << 30)), "cost": 6})
+    # written by one interpreter, read by another (functions defined in the writer's __main__, names re-bound in the reader)
+    cases.append({"kind": "cross_process", "seed": int(rng.integers(1 << 30)), "cost": 12})
     return cases
 
 
@@ -338,13 +340,25 @@ def cmp_solution(cx, a, b, what):
                 cx.viol("current_density_differs", "step_data_differs", {"what": what, "step": s})
         a.solve_step = -1
         b.solve_step = -1
-    # dynamics
-    da, db = a.dynamics, b.dynamics
+    # dynamics (an accessor that works on the original and raises on the loaded object is a difference in behaviour)
+    da = a.dynamics
+    try:
+        db = b.dynamics
+    except Exception as exc:  # noqa: BLE001
+        cx.viol("loaded_solution_raises", "loaded_solution_raises", {"what": what, "accessor": "dynamics", "error": repr(exc)[:200]})
+        db = None
     for f in ("dt", "time", "mu", "theta", "screening_iterations"):
+        if db is None:
+            break
         x, y = getattr(da, f), getattr(db, f)
         if (x is None) != (y is None) or (x is not None and (np.asarray(x).shape != np.asarray(y).shape or not np.array_equal(x, y))):
             cx.viol("dynamics_differs", "dynamics_differs", {"what": what, "field": f})
-    ta, tb = a.times, b.times
+    ta = a.times
+    try:
+        tb = b.times
+    except Exception as exc:  # noqa: BLE001
+        cx.viol("loaded_solution_raises", "loaded_solution_raises", {"what": what, "accessor": "times", "error": repr(exc)[:200]})
+        tb = ta
     if (ta is None) != (tb is None) or (ta is not None and not np.array_equal(ta, tb)):
         cx.viol("times_differ", "dynamics_differs", {"what": what})
     # parameters evaluate to the same values
@@ -440,6 +454,38 @@ def case_solution(spec):
             l3 = tdgl.Solution.from_hdf5(sol.path, solve_step=0)
             if l3.solve_step != int(sol.data_range[0]):
                 cx.viol("solve_step_not_honoured", "solve_step_not_honoured", {"got": int(l3.solve_step)})
+            # second generation: the LOADED copy (its option values are what the file gave back, e.g. numpy scalars) saved and
+            # loaded again still equals the original
+            p2 = os.path.join(keep, "copy2.h5")
+            try:
+                l1.to_hdf5(p2)
+                l4 = tdgl.Solution.from_hdf5(p2)
+            except Exception as exc:  # noqa: BLE001
+                cx.viol("loaded_solution_raises", "loaded_solution_raises", {"what": "second_generation", "accessor": "to_hdf5/from_hdf5", "error": repr(exc)[:200]})
+            else:
+                cmp_solution(cx, sol, l4, "second_generation")
+            # the destination already holds an OLDER, different result (the usual 'overwrite latest.h5'): what is read back is
+            # the solution that was saved, not a mixture
+            if spec.get("overwrite_existing", True):
+                older = copy.deepcopy(spec)
+                older["options"] = dict(older["options"], save_every=max(1, int(older["options"].get("save_every", 5)) + 2))
+                if "auto_dt" in older["options"]:
+                    older["options"]["auto_dt"] = dict(older["options"]["auto_dt"], steps=max(4, older["options"]["auto_dt"]["steps"] // 2))
+                else:
+                    older["options"]["solve_time"] = 0.5 * older["options"]["solve_time"]
+                r0 = sim.run_sim(older, [], device=rr.device, keep_dir=True)
+                if r0.solution is not None and r0.exception is None:
+                    p_old = os.path.join(keep, "latest.h5")
+                    r0.solution.to_hdf5(p_old)
+                    cx.cnt("overwrite_existing_checks")
+                    try:
+                        sol.to_hdf5(p_old)
+                        l5 = tdgl.Solution.from_hdf5(p_old)
+                    except Exception as exc:  # noqa: BLE001
+                        cx.viol("loaded_solution_raises", "loaded_solution_raises", {"what": "overwrite_existing", "accessor": "to_hdf5/from_hdf5", "error": repr(exc)[:200]})
+                    else:
+                        cmp_solution(cx, sol, l5, "overwrite_existing")
+                shutil.rmtree(r0.outdir, ignore_errors=True)
         else:
             # only the final step was kept in memory
             cx.cnt("solution_roundtrips")
@@ -586,5 +632,40 @@ def case_parameter(spec):
             "sample": {"trees": len(spec["trees"]), "round_tripped": cx.C.get("parameter_value_checks", 0)}}
 
 
+def case_cross_process(spec):
+    """Parameters and a Solution written by a script (its functions live in __main__) and read back by ANOTHER interpreter
+    in which those names mean something else: 'written to disk and read back' has to survive the end of the session."""
+    import json
+    import subprocess
+    import sys
+
+    from .. import env
+
+    cx = Ctx()
+    tmp = tempfile.mkdtemp(prefix="vt_c14x_")
+    here = os.path.join(os.path.dirname(os.path.dirname(os.path.abspath(__file__))), "xproc")
+    e = dict(os.environ, PYTHONPATH=env.REPO, TQDM_DISABLE="1", NUMBA_NUM_THREADS="1")
+    try:
+        w = subprocess.run([sys.executable, os.path.join(here, "c14_writer.py"), tmp], env=e, cwd=tmp, capture_output=True, text=True, timeout=900)
+        if w.returncode != 0:
+            return {"status": "harness_error", "error": "cross-process writer failed: " + w.stderr[-400:]}
+        r = subprocess.run([sys.executable, os.path.join(here, "c14_reader.py"), tmp], env=e, cwd=tmp, capture_output=True, text=True, timeout=900)
+        if r.returncode != 0 or not os.path.exists(os.path.join(tmp, "report.json")):
+            return {"status": "harness_error", "error": "cross-process reader failed: " + r.stderr[-400:]}
+        for item in json.load(open(os.path.join(tmp, "report.json"))):
+            cx.cnt("cross_process_checks")
+            cx.cnt("parameter_value_checks")
+            if "error" in item:
+                cx.viol("loaded_parameter_raises", "loaded_parameter_raises", dict(item, what="cross_process"))
+            elif not item["equal"]:
+                cx.viol("loaded_parameter_value_differs", "loaded_parameter_value_differs", dict(item, what="cross_process"))
+            elif not item["time_dependent_same"]:
+                cx.viol("loaded_parameter_flag_differs", "loaded_parameter_flag_differs", dict(item, what="cross_process"))
+    finally:
+        shutil.rmtree(tmp, ignore_errors=True)
+    return {"violations": cx.V, "counters": cx.C, "classes": ["cross_process"], "nontrivial": cx.C.get("cross_process_checks", 0) > 0,
+            "sample": {"objects_read_back_in_another_interpreter": cx.C.get("cross_process_checks", 0)}}
+
+
 def run_case(spec):
-    return {"device": case_device, "solution": case_solution, "parameter": case_parameter}[spec["kind"]](spec)
+    return {"device": case_device, "solution": case_solution, "parameter": case_parameter, "cross_process": case_cross_process}[spec["kind"]](spec)
